@@ -591,9 +591,9 @@ func c13FaultsOnline(t *vk.T, i int, budget int) {
 		if p, fr, txt := vk.Guard(func() { ok, err = runMul(ctx, ss, rs, a, b, tr, ts) }); p {
 			t.Obs("panics_under_tampering", 1)
 			t.Distinct("fault|%s|%s|%s|panic", j.who, j.path, j.kind)
-			_ = fr
-			_ = txt
-			continue // a panic is "not a wrong product"; crash-safety belongs to C05
+			// neither "an error on the checking side" nor "a still-correct product"
+			t.Violation("multiply|tampered-panic|"+j.who+"|"+j.path+"|"+j.kind+"|"+fr, "altering %s field %s (%s) made the multiplication panic in %s: %s", j.who, j.path, j.kind, fr, truncStr(txt, 160))
+			continue
 		}
 		t.Obs("evaluations", 1)
 		switch {
